@@ -36,6 +36,14 @@ class TransitiveError(NotImplementedError):
         )
 
 
+def _copy(converter: Converter) -> Converter:
+    """Copy a converter so its records can be modified without touching the original."""
+    return Converter(
+        [record.model_copy(deep=True) for record in converter.records],
+        delimiter=converter.delimiter,
+    )
+
+
 def remap_curie_prefixes(converter: Converter, remapping: Mapping[str, str]) -> Converter:
     """Apply CURIE prefix remappings.
 
@@ -45,6 +53,7 @@ def remap_curie_prefixes(converter: Converter, remapping: Mapping[str, str]) -> 
 
     :returns: An upgraded converter
     """
+    converter = _copy(converter)
     ordering = _order_curie_remapping(converter, remapping)
     intersection = set(remapping).intersection(remapping.values())
     records = {r.prefix: r for r in converter.records}
@@ -101,6 +110,7 @@ def remap_uri_prefixes(converter: Converter, remapping: Mapping[str, str]) -> Co
     if intersection:
         raise TransitiveError(intersection)
 
+    converter = _copy(converter)
     records = []
     for record in converter.records:
         new_uri_prefix = _get_uri_preferred_or_synonym(record, remapping)
@@ -132,6 +142,7 @@ def rewire(converter: Converter, rewiring: Mapping[str, str]) -> Converter:
 
     :returns: An upgraded converter
     """
+    converter = _copy(converter)
     records = []
     for record in converter.records:
         new_uri_prefix = _get_curie_preferred_or_synonym(record, rewiring)
